@@ -310,8 +310,10 @@ class FamWorld:
         src = self._fam(ev.get("src", 0))
         route = ev["route"]
         self.abstract.append(zlib.crc32(f"derive|{route}|{src.kind}|{src.route}".encode()))
-        if src.it is not None and route != "copy":
+        if src.it is not None and route not in ("copy", "split"):
             return "skip:L2"
+        if src.it is not None and src.it["dirty"]:
+            return "skip:L2-derivation-in-dirty-window"
         if len(self.fams) >= MAX_FAMILIES:
             return "skip:full"
         new = []
@@ -999,6 +1001,13 @@ def _gen_event(rng, world, knobs, prop):
     fam = world.fams[fi]
     if fam.it is not None:
         r = rng.random()
+        if r < 0.06 and nf < MAX_FAMILIES and prop == "C16":
+            # copying / splitting the sequence that is being iterated (a read of it) is legal between two steps
+            ev = {"op": "derive", "route": rng.choice(["copy", "split"]), "src": fi, "target": rng.randrange(8)}
+            if ev["route"] == "split":
+                seqs = fam.seqs()
+                ev["caps"] = seqops.g_split(rng, seqs[ev["target"] % len(seqs)])["caps"]
+            return ev
         if r < 0.35:
             return {"op": "iter_advance", "fam": fi}
         if r < 0.7:
